@@ -56,6 +56,15 @@ def run_one_shard(spec, workdir, timeout):
     return last
 
 
+def extra_floors(prop, tier):
+    """floors for the monitor counters that were added after a check's own FLOORS were written: measured on the
+    unchanged tree by tools/unfloored.py (40% of the smallest value seen), kept in vf/floors_extra.json"""
+    try:
+        return json.load(open(os.path.join(vf.VERIF, "vf", "floors_extra.json"))).get(prop, {}).get(tier, {})
+    except FileNotFoundError:
+        return {}
+
+
 def main(argv=None):
     ap = argparse.ArgumentParser()
     ap.add_argument("prop")
@@ -149,7 +158,7 @@ def main(argv=None):
 
     # ---- floors (what turns a silent run into 'inconclusive')
     if not args.replay:
-        floors = getattr(mod, "FLOORS", {}).get(args.tier, {})
+        floors = dict(extra_floors(prop, args.tier), **getattr(mod, "FLOORS", {}).get(args.tier, {}))
         for name, floor in floors.items():
             got = len(sigs) if name == "distinct_nontrivial" else (
                 evaluations if name == "evaluations" else counters.get(name, 0))
